@@ -6,7 +6,7 @@
 From Coq Require Import List NArith ZArith Bool.
 From Coq.Strings Require Import Byte.
 From RecordUpdate Require Import RecordSet.
-From MV Require Import Bytes Base64Model Base64Proofs CredModel CredProofs CredRoundtrip V3Spec.
+From MV Require Import Bytes Base64Model Base64Proofs CredModel CredProofs CredRoundtrip V3Spec V3Accept.
 From MV.gen Require Import GenCred.
 Import ListNotations RecordSetNotations.
 Local Open Scope N_scope.
@@ -74,3 +74,54 @@ Theorem C10_spec_literals :
   c_cred_version = 3 /\ c_salt_len = 8 /\ c_subkey_hash = 3.
 Proof. repeat split; reflexivity. Qed.
 Print Assumptions C10_spec_literals.
+
+(* ACCEPT direction, for credentials that did NOT come from this encoder: every string that satisfies the documented
+   relation for some field record f (any IV, any salt, any origin address of length 0 or 4, compression kept even if
+   it did not shrink the data, any other conforming implementation's choices) and whose fields are ones munged can
+   decode (V3Accept.decodable: a real MAC at least as long as the cipher key, a known zip code, origin address of 0
+   or 4 bytes) is accepted by a daemon with the same key, in both wire framings (with and without the NUL), with
+   exactly the fields of f in the reply (V3Accept.accept_reply) and its replay key recorded.  The clauses of the
+   document that are too weak for acceptance are closed Examples in V3Accept.v (the relation_allows_... examples). *)
+Section C10_accept.
+Variable hmac : N -> bytes -> bytes -> bytes.
+Variable sha1 : bytes -> bytes.
+Variable blk_enc blk_dec : N -> bytes -> bytes -> bytes.
+Variable zcomp : N -> bytes -> option bytes.
+Variable zdecomp : N -> bytes -> N -> option bytes.
+Hypothesis hmac_len : forall a k d, mac_valid a = true -> len (hmac a k d) = mac_size a.
+Hypothesis blk_len : forall c k b, cipher_valid c = true -> len b = cipher_blk_size c -> len (blk_enc c k b) = cipher_blk_size c.
+Hypothesis blk_inv : forall c k b, cipher_valid c = true -> len b = cipher_blk_size c -> blk_dec c k (blk_enc c k b) = b.
+Hypothesis zip_inv : forall z x raw mx, zip_valid z = true -> zcomp z x = Some raw -> len x <= mx -> zdecomp z raw mx = Some x.
+
+Theorem C10_spec_accepted :
+  forall (key : bytes) (f : v3_fields) (cred : bytes),
+  v3_cred hmac sha1 blk_enc zcomp key f cred -> decodable f ->
+  exists tag, v3_mac_field f cred tag /\
+  forall (cfd : conf) (mem : N -> N -> bool) (rs : rstate) (du dg now' retry : N),
+  cf_key cfd = key -> retry <= c_retry_attempts ->
+  let ttl' := capped cfd (f_ttl f) in
+  (f_auth_uid f = c_uid_any \/ f_auth_uid f = du \/ (cf_root_auth cfd = true /\ du = 0)) ->
+  (f_auth_gid f = c_gid_any \/ f_auth_gid f = dg \/ mem du (f_auth_gid f) = true) ->
+  (Z.of_N (f_time f) - Z.of_N (skew_of cfd ttl') <= Z.of_N (u32 now'))%Z -> u32 now' <= f_time f + ttl' ->
+  let k := (firstn 16 tag, f_time f + ttl') in
+  r_mem k rs = false ->
+  dec_process hmac sha1 blk_dec zdecomp cfd mem rs (dec_req (cred ++ [x00]) retry) du dg now'
+    = (accept_reply cfd f du dg now' retry, k :: rs, Some k) /\
+  dec_process hmac sha1 blk_dec zdecomp cfd mem rs (dec_req cred retry) du dg now'
+    = (accept_reply cfd f du dg now' retry, k :: rs, Some k).
+Proof. exact (spec_accepted_ex hmac sha1 blk_enc blk_dec zcomp zdecomp hmac_len blk_len blk_inv zip_inv). Qed.
+
+(* the M layer named by v3_mac_field is a function of the credential string *)
+Theorem C10_mac_field_unique : forall f cred t1 t2, v3_mac_field f cred t1 -> v3_mac_field f cred t2 -> t1 = t2.
+Proof. exact mac_field_unique. Qed.
+
+(* the relation is inhabited for every in-range field record and every IV of the cipher's length (so the premise of
+   C10_spec_accepted is not only met by this encoder's outputs) *)
+Theorem C10_spec_inhabited :
+  forall key f iv cred, fields_in_range f -> len iv = iv_len (f_cipher f) ->
+  v3_build hmac sha1 blk_enc zcomp key f iv = Some cred -> v3_cred hmac sha1 blk_enc zcomp key f cred.
+Proof. exact (v3_build_spec hmac sha1 blk_enc zcomp blk_len). Qed.
+End C10_accept.
+Print Assumptions C10_spec_accepted.
+Print Assumptions C10_mac_field_unique.
+Print Assumptions C10_spec_inhabited.
